@@ -5,12 +5,19 @@ cd "$(dirname "$0")" || exit 2
 export GOFLAGS=-mod=mod GOPROXY=off GOSUMDB=off GOTOOLCHAIN=local
 export VERIF_ROOT="$(pwd)"
 mkdir -p bin evidence
+# VERIF_REPO=<dir>: build and run against another checkout of goplus/gogen (used only by tools/ for seeded changes in
+# scratch worktrees, from a scratch copy of /verif; the registered commands never set it and always use /repo).
+MODFLAG=""
+if [ -n "$VERIF_REPO" ] && [ "$VERIF_REPO" != /repo ]; then
+  sed "s#=> /repo#=> $VERIF_REPO#" go.mod > bin/alt.go.mod; cp go.sum bin/alt.go.sum
+  MODFLAG="-modfile=bin/alt.go.mod"
+fi
 build() { # $1 = output, rest = flags
   local out="$1"; shift
   local tmp="bin/.$(basename "$out").$$"
   local target=./cmd/vcheck
   [ "$(basename "$out")" = stubgo ] && target=./cmd/stubgo
-  if ! go build "$@" -o "$tmp" $target 2> "bin/.build.$$.log"; then
+  if ! go build $MODFLAG "$@" -o "$tmp" $target 2> "bin/.build.$$.log"; then
     cat "bin/.build.$$.log"; rm -f "bin/.build.$$.log" "$tmp"
     echo "BUILD-FAILED: the harness does not compile against /repo's working tree"
     return 2
